@@ -16,7 +16,7 @@ type c11 struct{}
 func (c11) ID() string    { return "C11" }
 func (c11) Level() string { return "exploration" }
 func (c11) Rule() string {
-	return "27 default-able facts (default network membership; implicit default network; <project>_<key> names of network/volume/secret/config; depends_on implied by links, network_mode/ipc/pid service: namespaces, volumes_from; build context; dockerfile; port protocol; port mode; secret target; depends_on required; depends_on short list; env_file required; device count; pull_policy alias), each carried by its own service: every subset of <=3 facts left implicit and every subset of <=3 facts written explicitly (thorough: all 2^14 subsets of the first 14), delivered by main file / override / include / extended base (other file and same file), and (main file, extended base) under a later layer that adds other entries to the same attributes; oracle: implicit model == all-explicit model delivered the same way. Plus, per fact, an explicit non-default value that must survive, an implied depends_on that must not replace a declared one, and the `default` network present iff used. distinct = distinct subsets x origins"
+	return "27 default-able facts (default network membership; implicit default network; <project>_<key> names of network/volume/secret/config; depends_on implied by links, network_mode/ipc/pid service: namespaces, volumes_from; build context; dockerfile; port protocol; port mode; secret target; depends_on required; depends_on short list; env_file required; device count; pull_policy alias), each carried by its own service: every subset of <=3 facts left implicit and every subset of <=3 facts written explicitly (thorough: all 2^14 subsets of the first 14), delivered by main file / override / include / extended base (other file and same file), and (main file, extended base) under a later layer that adds other entries to the same attributes; oracle: implicit model == all-explicit model delivered the same way. Plus, per fact, an explicit non-default value that must survive, an implied depends_on that must not replace a declared one, and the `default` network present iff used, over every assignment of 3 services to 6 ways of using or not using it (implicit, explicit list, explicit mapping, with another network, network_mode, another network only). distinct = distinct subsets x origins"
 }
 func (c11) Assumptions() []string {
 	return []string{"projects compared with go-cmp (EquateEmpty) over all model fields"}
@@ -372,34 +372,45 @@ func (c11) Run(c *core.Ctx) {
 			})
 		}
 	}
-	// default network present iff used
-	for mask := 0; mask < 8; mask++ {
-		mask := mask
-		c.Do(fmt.Sprintf("defaultnet/%d", mask), func() core.Outcome {
+	// default network present iff used: every assignment of 3 services to the ways of (not) using it
+	kinds := []struct {
+		body string
+		uses bool
+	}{
+		{"", true}, // neither networks nor network_mode
+		{"    networks: [default]\n", true},
+		{"    networks:\n      default: {aliases: [al]}\n", true},
+		{"    networks: [default, other]\n", true},
+		{"    network_mode: host\n", false},
+		{"    networks: [other]\n", false},
+	}
+	for code := 0; code < 6*6*6; code++ {
+		code := code
+		c.Do(fmt.Sprintf("defaultnet/%03d", code), func() core.Outcome {
 			var sb strings.Builder
 			sb.WriteString("services:\n")
 			used := false
+			x := code
 			for i := 0; i < 3; i++ {
-				fmt.Fprintf(&sb, "  s%d:\n    image: i\n", i)
-				if mask&(1<<i) != 0 {
-					used = true // no networks, no network_mode -> default
-				} else if i%2 == 0 {
-					sb.WriteString("    network_mode: host\n")
-				} else {
-					sb.WriteString("    networks: [other]\n")
-				}
+				k := kinds[x%6]
+				x /= 6
+				fmt.Fprintf(&sb, "  s%d:\n    image: i\n%s", i, k.body)
+				used = used || k.uses
 			}
 			sb.WriteString("networks:\n  other: {}\n")
 			s := &Scn{Files: map[string]string{"compose.yaml": sb.String()}, Main: []string{"compose.yaml"}, InMem: true}
 			p, err := s.LoadAt(Scratch())
 			if err != nil {
-				return core.Outcome{Class: "err", Viol: &core.Violation{Key: "defaultnet:error", Msg: err.Error()}}
+				return core.Outcome{Class: "err", Sample: sb.String(), Viol: &core.Violation{Key: "defaultnet:error", Msg: fmt.Sprintf("a model using the undeclared default network explicitly or implicitly must load: %v\n%s", err, sb.String())}}
 			}
-			_, has := p.Networks["default"]
+			n, has := p.Networks["default"]
 			if has != used {
 				return core.Outcome{Class: "dn", Sample: sb.String(), Viol: &core.Violation{Key: "default-network-iff-used", Msg: fmt.Sprintf("default network present=%v but used=%v\n%s", has, used, sb.String())}}
 			}
-			return core.Outcome{Class: fmt.Sprintf("defaultnet/%d", mask), Sample: sb.String()}
+			if has && n.Name != "proj_default" {
+				return core.Outcome{Class: "dn", Sample: sb.String(), Viol: &core.Violation{Key: "default-network-name", Msg: fmt.Sprintf("implicit default network is named %q\n%s", n.Name, sb.String())}}
+			}
+			return core.Outcome{Class: fmt.Sprintf("defaultnet/%v/%v", used, has), Sample: sb.String()}
 		})
 	}
 }
